@@ -1,6 +1,7 @@
 import GorumsV.Props.C03
 import GorumsV.Tie.C06
 import GorumsV.Generated.Exprs
+import GorumsV.Tie.TreeParams
 /-!
   Tie for C03: every call type hands its requests to the node channels by plain statements of
   its per-node loop (Tie/C06 `enqPlain_good`: not under `go`, not in a closure — so the hand-off
@@ -25,4 +26,8 @@ open GorumsV.Tie.C03 GorumsV.C03
 #print axioms started_in_receive_order
 #print axioms start_order
 #print axioms no_overtaking
+#print axioms GorumsV.NetP.net_stream_contract
+#print axioms GorumsV.NetP.net_start_order
+#print axioms GorumsV.NetP.chan_reachable
+#print axioms GorumsV.NetP.srv_reachable
 end Audit
